@@ -18,6 +18,7 @@ import (
 	"strconv"
 	"strings"
 	"syscall"
+	"time"
 
 	"github.com/Vedant9500/WTF/internal/constants"
 	"github.com/Vedant9500/WTF/internal/database"
@@ -737,11 +738,22 @@ func execLoadEmb(g, c, op string, mon *Mon) string {
 	if err != nil {
 		return "no-executable"
 	}
-	cmd := exec.Command(self, "tool", "c19-loademb", dir)
-	cmd.Env = append(os.Environ(), "GOMEMLIMIT=512MiB")
 	var errb strings.Builder
-	cmd.Stderr = &errb
-	out, err := cmd.Output()
+	var out []byte
+	for attempt := 0; attempt < 5; attempt++ {
+		cmd := exec.Command(self, "tool", "c19-loademb", dir)
+		cmd.Env = append(os.Environ(), "GOMEMLIMIT=512MiB", "GOMAXPROCS=2")
+		errb.Reset()
+		cmd.Stderr = &errb
+		out, err = cmd.Output()
+		if err != nil && c19ChildCouldNotStart(errb.String()) && len(out) == 0 {
+			// EAGAIN from clone: the machine's thread budget, not the loader - run it again
+			mon.Tag("c19.child-could-not-start-a-thread(retried)")
+			time.Sleep(time.Duration(500+1000*attempt) * time.Millisecond)
+			continue
+		}
+		break
+	}
 	line := strings.TrimSpace(string(out))
 	if err != nil || !strings.HasPrefix(line, "err=") {
 		e := errb.String()
@@ -794,11 +806,20 @@ func childLoad(kind string, dim int, path string) (line string, hwmKB int64, cra
 		a = append(a, Itoa(dim))
 	}
 	a = append(a, path)
-	cmd := exec.Command(self, a...)
-	cmd.Env = append(os.Environ(), "GOMEMLIMIT=512MiB")
 	var errb strings.Builder
-	cmd.Stderr = &errb
-	out, err := cmd.Output()
+	var out []byte
+	for attempt := 0; attempt < 5; attempt++ {
+		cmd := exec.Command(self, a...)
+		cmd.Env = append(os.Environ(), "GOMEMLIMIT=512MiB", "GOMAXPROCS=2")
+		errb.Reset()
+		cmd.Stderr = &errb
+		out, err = cmd.Output()
+		if err != nil && c19ChildCouldNotStart(errb.String()) && len(out) == 0 {
+			time.Sleep(time.Duration(500+1000*attempt) * time.Millisecond)
+			continue
+		}
+		break
+	}
 	for _, l := range strings.Split(string(out), "\n") {
 		if strings.HasPrefix(l, "R ") {
 			line = l[2:]
@@ -1359,4 +1380,15 @@ func embExecSearch(st *embState, q string, nlp bool, op string, alpha float64, m
 		mon.Tag("search-attached-unchanged")
 	}
 	return "ok"
+}
+
+// c19ChildCouldNotStart: the capped child died because a thread could not be created (EAGAIN from clone, the machine's
+// process / thread budget) - which says nothing about the loader.  Running out of memory is NOT among these.
+func c19ChildCouldNotStart(stderr string) bool {
+	for _, x := range []string{"pthread_create failed", "failed to create new OS thread", "newosproc"} {
+		if strings.Contains(stderr, x) {
+			return true
+		}
+	}
+	return false
 }
